@@ -350,6 +350,15 @@ class M1:
                     return ("LEN", adt, root, tuple(pre))
             if x[0] == "call" and x[1] == "conv" and x[2] and x[2][0][0] in ("int",):
                 return x[2][0]
+            if x[0] == "phi" and len(x[1]) == 2 and ("int", 0) not in x[1]:
+                # `match .. { inside => a, _ => L }` with a chosen only where a < L (a <= L) is known: min(a, L)
+                for a_, b_ in ((x[1][0], x[1][1]), (x[1][1], x[1][0])):
+                    for g in self.env.ev.option_facts.get((x, a_), []):
+                        if len(g) == 3 and g[0] in ("lt", "le") and unref(g[1]) == unref(a_) and unref(g[2]) == unref(b_) \
+                                and any(len(h) == 3 and h[0] in ("lt", "le") and unref(h[1]) == unref(b_) and unref(h[2]) == unref(a_)
+                                        for h in self.env.ev.option_facts.get((x, b_), [])):
+                            # (.. and L only where L <= a)
+                            return ("call", "min", (f(a_) or a_, f(b_) or b_))
             if x[0] == "phi" and len(x[1]) == 2 and ("int", 0) in x[1]:
                 # `match .. { small => L - c, _ => 0 }` with the 0 chosen only where L <= c is known: saturating_sub(L, c)
                 o = [y for y in x[1] if y != ("int", 0)]
